@@ -11,7 +11,8 @@ afterwards, compared inside Coq with M_Contexts.fill.
 Descriptor (JSON)
   mgr   {m: {"k": "syn", "hooked": b, "falsy": b, "eqp": b}
            | {"k": "gcm", "fn": c, "state": "new"|"ent"|"done"}}
-  fns   {c: {"yf": b, "reg": ures|null}}      generator functions (code id c)
+  fns   {c: {"yf": b, "reg": ures|null, "async": b (optional)}}   generator functions (code id c);
+                                              async = @asynccontextmanager (never with yf)
   xfr   {i: {"reg": ures|null}}               extra plain frames 900+i (code id 900+i)
   elab  {m: [eff...]}   eff = ["sd",d] ["ad",d] ["sc",[k..]] ["ac",k] ["si",null|[f..]] ["so",m] ["raise"]
   unwrap {m: ures}      ures = ["none"] | ["prune"] | ["to", m] | ["raise"]
@@ -37,7 +38,7 @@ RULE = ("random hook tables over 2..7 managers (synthetic classes with/without r
         "backward: cycles), raise}, elaborate effects {set/append description, set/append children, set inner_stack, "
         "set obj, raise}, exiting and non-exiting contexts, fresh and pre-filled Context fields; each table is run "
         "outside extract, inside extract (all option pairs) and end-to-end through a real `with` in a generator frame; "
-        "linear chains of 0..3 and 98..102 steps, self-, 2- and mixed cycles; thorough adds the exhaustive scope of 2 free "
+        "dedicated tables for the generator-based lookup against a pre-set inner_stack; linear chains of 0..3 and 98..102 steps, self-, 2- and mixed cycles; thorough adds the exhaustive scope of 2 free "
         "managers + sink. distinct = distinct descriptors; non-trivial = the model run replaces the manager, hides the "
         "context or raises")
 CONFIG = dict(
@@ -73,9 +74,11 @@ def chain_case(n, end=("none",), mode=("outside",), kind="syn", exiting=False):
     """o0 -> o1 -> ... -> o_n, n successful unwrap steps, then `end` at o_n."""
     mgr, unwrap, elab, fns = {}, {}, {}, {}
     for m in range(n + 1):
-        if kind == "gcm" or (kind == "mixed" and m % 2):
+        if kind in ("gcm", "agcm") or (kind == "mixed" and m % 2):
             mgr[str(m)] = {"k": "gcm", "fn": m, "state": "ent"}
             fns[str(m)] = {"yf": False, "reg": (["to", m + 1] if m < n else list(end))}
+            if kind == "agcm" or (kind == "mixed" and m % 4 == 3):
+                fns[str(m)]["async"] = True
         else:
             mgr[str(m)] = {"k": "syn", "hooked": True, "falsy": False, "eqp": False}
             unwrap[str(m)] = ["to", m + 1] if m < n else list(end)
@@ -107,6 +110,9 @@ def specials():
     out.append(chain_case(100, mode=("inside", False, True)))
     out.append(chain_case(100, mode=("e2e", False)))
     out.append(chain_case(100, kind="gcm", exiting=True))
+    out.append(chain_case(3, kind="agcm"))
+    out.append(chain_case(3, kind="agcm", exiting=True))
+    out.append(cycle_case(2, kind="agcm"))
     for kind in ("syn", "gcm", "mixed"):
         for p in (1, 2, 3):
             for ex in (False, True):
@@ -129,6 +135,9 @@ def specials():
                 out.append(dict(base, mgr={"0": {"k": "gcm", "fn": 0, "state": st}, "1": syn},
                                 fns={"0": {"yf": yf, "reg": ["to", 1]}}, elab={"1": [["ad", 1]]}, unwrap={"1": ["none"]},
                                 ctx=_default_ctx(0, ex)))
+            out.append(dict(base, mgr={"0": {"k": "gcm", "fn": 0, "state": st}, "1": syn},
+                            fns={"0": {"yf": False, "reg": ["to", 1], "async": True}}, elab={"1": [["ad", 1]]},
+                            unwrap={"1": ["none"]}, ctx=_default_ctx(0, ex)))
         out.append(dict(base, mgr={"0": {"k": "gcm", "fn": 0, "state": "ent"}, "1": {"k": "gcm", "fn": 1, "state": "ent"}, "2": syn},
                         fns={"0": {"yf": False, "reg": ["to", 2]}, "1": {"yf": True, "reg": ["prune"]}},
                         elab={}, unwrap={}, ctx=dict(_default_ctx(0, ex), inner=[1, 501])))
@@ -231,6 +240,9 @@ def gen_case(rng: random.Random, nmax=7):
         first = max(int(m) for m, a in d["mgr"].items() if a["k"] == "gcm" and a["fn"] == c)
         d["fns"][str(c)] = {"yf": rng.random() < 0.35,
                             "reg": ures(first, 0.12, 0.13, 0.06) if rng.random() < 0.8 else None}
+    for spec in d["fns"].values():
+        if not spec["yf"] and rng.random() < 0.3:
+            spec["async"] = True
     for i in range(rng.choice((0, 0, 1, 2))):
         d["xfr"][str(i)] = {"reg": _ures(rng, n, -1, 0.2, 0.2, 0.1) if rng.random() < 0.6 else None}
     alive = alive_frames_of(d)
@@ -248,6 +260,39 @@ def gen_case(rng: random.Random, nmax=7):
     d["ctx"] = ctx
     if any(a.get("eqp") for a in d["mgr"].values()):
         d["_sig"] = "C11_manager_equal_to_empty_tuple"
+    return d
+
+
+def gen_path_case(rng: random.Random):
+    """the lookup of a generator-based manager against a pre-set inner_stack (empty, its own frames, frames of
+    another generator or of a plain function), with its own code and/or the foreign code registered or not"""
+    syn = {"k": "syn", "hooked": True, "falsy": False, "eqp": False}
+    d = {"mgr": {"1": {"k": "gcm", "fn": 0, "state": rng.choice(("new", "ent", "ent", "done"))},
+                 "2": {"k": "gcm", "fn": rng.choice((0, 1)), "state": rng.choice(("new", "ent"))},
+                 "3": syn, "4": syn},
+         "fns": {}, "xfr": {"0": {"reg": rng.choice((None, ["to", 4], ["prune"], ["none"]))}},
+         "elab": {"3": [["ad", 3]], "4": [["ad", 4]]}, "unwrap": {"3": ["none"], "4": ["none"]}}
+    for c in (0, 1):
+        d["fns"][str(c)] = {"yf": rng.random() < 0.4, "reg": rng.choice((None, None, ["to", 3], ["to", 3], ["prune"], ["none"], ["raise"]))}
+    if d["mgr"]["2"]["fn"] == 0:
+        del d["fns"]["1"]
+    for spec in d["fns"].values():
+        if not spec["yf"] and rng.random() < 0.3:
+            spec["async"] = True
+    alive = alive_frames_of(d)
+    preset = rng.choice([None, [], [], [rng.choice(alive)], [rng.choice(alive), rng.choice(alive)]])
+    if rng.random() < 0.5:
+        # reached through a synthetic manager whose elaborate sets inner_stack and then overwrites obj
+        d["mgr"]["0"] = syn
+        d["elab"]["0"] = [["si", preset], ["so", 1]]
+        d["unwrap"]["0"] = ["none"]
+        d["ctx"] = _default_ctx(0, rng.random() < 0.5)
+    else:
+        d["mgr"]["0"] = syn
+        d["elab"]["0"] = []
+        d["unwrap"]["0"] = ["none"]
+        d["ctx"] = dict(_default_ctx(1, True), inner=preset)
+    d["mode"] = rng.choice((["outside"], ["inside", True, False], ["inside", False, True]))
     return d
 
 
@@ -282,6 +327,8 @@ def exhaustive(stride=1, offset=0):
                 else:
                     d["mgr"][str(m)] = {"k": "gcm", "fn": m, "state": spec[1]}
                     d["fns"][str(m)] = {"yf": m == 1, "reg": spec[2]}
+                    if m == 0 and n % 2:
+                        d["fns"][str(m)]["async"] = True
             yield d
 
 
@@ -291,6 +338,8 @@ def make_inputs(tier, seed):
     n = 1800 if tier == "quick" else 20000
     for _ in range(n):
         yield gen_case(rng)
+    for _ in range(n // 6):
+        yield gen_path_case(rng)
     if tier == "thorough":
         yield from exhaustive()
     else:
@@ -372,9 +421,19 @@ def _unregister(dispatcher, keys):
         pass
 
 
+def _drive(coro):
+    """run a coroutine that never really suspends (entering / leaving an @asynccontextmanager)"""
+    try:
+        coro.send(None)
+    except StopIteration as ex:
+        return ex.value
+    coro.close()
+    raise RuntimeError("coroutine suspended")
+
+
 def run_case(d):
     import sys
-    from contextlib import contextmanager
+    from contextlib import contextmanager, asynccontextmanager
     import stackscope
     from stackscope import (Context, Frame, Stack, PRUNE, elaborate_context, unwrap_context,
                             unwrap_context_generator, unwrap_stackitem, fill_context, extract)
@@ -398,8 +457,10 @@ def run_case(d):
 
     # --- generator functions and generator-based managers
     for c, spec in d["fns"].items():
-        ns = {"__name__": "c11cases", "contextmanager": contextmanager}
-        if spec["yf"]:
+        ns = {"__name__": "c11cases", "contextmanager": contextmanager, "asynccontextmanager": asynccontextmanager}
+        if spec.get("async"):
+            src = f"@asynccontextmanager\nasync def cm_{c}(x):\n    yield\n"
+        elif spec["yf"]:
             src = f"def sub_{c}():\n    yield\n@contextmanager\ndef cm_{c}(x):\n    yield from sub_{c}()\n"
         else:
             src = f"@contextmanager\ndef cm_{c}(x):\n    yield\n"
@@ -414,6 +475,15 @@ def run_case(d):
         m = int(m)
         if a["k"] == "gcm":
             mg = fn_of[a["fn"]](m)
+            if d["fns"][str(a["fn"])].get("async"):
+                if a["state"] in ("ent", "done"):
+                    _drive(mg.__aenter__())
+                if a["state"] == "done":
+                    _drive(mg.__aexit__(None, None, None))
+                objs[m] = mg
+                if mg.gen.ag_frame is not None:
+                    pyf[m] = mg.gen.ag_frame
+                continue
             if a["state"] in ("ent", "done"):
                 mg.__enter__()
             if a["state"] == "done":
@@ -612,7 +682,10 @@ def run_case(d):
             g = getattr(o, "gen", None)
             if g is not None:
                 try:
-                    g.close()
+                    if hasattr(g, "aclose"):
+                        _drive(g.aclose())
+                    else:
+                        g.close()
                 except Exception:
                     pass
 
@@ -774,6 +847,8 @@ def classify(d, obs):
     labs.append("unwrapcalls:" + (str(steps) if steps < 4 else "4-99" if steps < 100 else ">=100"))
     if any(a["k"] == "gcm" for a in d["mgr"].values()):
         labs.append("has-gcm")
+    if any(f.get("async") for f in d["fns"].values()):
+        labs.append("has-async-gcm")
     if d["ctx"]["exiting"]:
         labs.append("exiting")
     if obs.get("ctx") and obs["ctx"]["hide"]:
